@@ -769,6 +769,9 @@ func plainFamily(r *rng, nRandom int, seedBase uint64) []namedSched {
 			Generative: true,
 			MapDen:     []uint32{5, 5, 8, 16}[r.intn(4)],
 			MapKinds:   0b11110,
+			// only matters if the builder starts goroutines of its own
+			PreemptDen: []uint32{0, 2, 4, 16}[r.intn(4)],
+			MaxSteps:   5_000_000,
 		}
 		if r.chance(60) {
 			cfg.ClockDen = []uint32{2, 5, 9}[r.intn(3)]
